@@ -538,3 +538,172 @@ def run_compaction(tier, seed):
     except rsparse.Unsupported as e:
         ob.update({"verdict": "inconclusive", "message": "encoder met source it cannot encode: %s" % e})
     return ob
+
+
+def run_install_none(tier, seed):
+    """C08 / C03 at the catalogue level: a snapshot installation whose delete_through is None (the follower's own log ends at or below the
+    snapshot; async-raft: "all entries of the log are to be deleted"). FileStore::finalize_snapshot_installation is evaluated from source with
+    the log manager's address dispatching into the real Handler<RaftLogManagerRequest> (SplitOff, InstallSnapshotPointerLog -> split_off,
+    save_new_snapshot_pointer, write, switch_new_log from source); snapshot / apply / index managers are recording sinks. Oracle after the
+    installation, for every catalogue shape and every snapshot index: every old file has left the catalogue (and its actor was told to close),
+    the catalogue is exactly one open file that starts at the snapshot index, that file is the append target (current_log_actor) and got the
+    pointer record, and the catalogue saved to the index file equals the one in memory."""
+    t0 = time.time()
+    ob = {"engine": "smt", "harness": "s08_8_installation_empties_the_log", "encodes_files": FILES + ["src/raft/filestore/core.rs"], "queries": 0, "solver_s": 0.0, "distinct": 0,
+          "encodes": ["FileStore::finalize_snapshot_installation", "Handler<RaftLogManagerRequest>::handle (SplitOff, InstallSnapshotPointerLog)",
+                      "RaftLogManager::{split_off,save_new_snapshot_pointer,write,switch_new_log}", "LogRangeWrap::get_log_range_end_index"],
+          "bound": "catalogues: %s; every snapshot index 1..=%d (symbolic), delete_through = None" % ("; ".join(CATALOGUES), MAX_CUT + 7)}
+    try:
+        prog = load_program(FILES + ["src/raft/filestore/core.rs"])
+        it = rseval.Interp(prog)
+        it.lenient = True
+        saved = []
+        sinks = []
+
+        class IndexAddr:
+            ty = "IndexAddr"
+
+        class Sink:
+            def __init__(self, name):
+                self.ty = "SinkAddr"
+                self.name = name
+        it.models[("IndexAddr", "do_send")] = lambda interp, recv, args: saved.append(args[0]) or ()
+        it.models[("SinkAddr", "send")] = lambda interp, recv, args: sinks.append((recv.name, args[0])) or Ok(Ok(Uninterp("answer_of_" + recv.name, [])))
+        it.models[("LogActorAddr", "do_send")] = lambda interp, recv, args: recv.sent.append(args[0]) or ()
+        it.models[("LogActorAddr", "send")] = lambda interp, recv, args: recv.sent.append(args[0]) or Ok(Ok(Enum("RaftLogResponse", "WriteResult", [Enum("LogWriteResult", "Success", [])])))
+        created = []
+
+        def create(interp, args):
+            a = Actor("new-file-%s" % (args[1]["id"] if isinstance(args[1], Struct) else "?"))
+            created.append(a)
+            return a
+        it.fn_models["Self::create_log_actor"] = create
+        it.fn_models["create_log_actor"] = create
+        it.fn_models["std::fs::remove_file"] = lambda interp, args: Ok(())
+        it.fn_models["fs::remove_file"] = it.fn_models["std::fs::remove_file"]
+        it.fn_models["Self::get_log_path"] = lambda interp, args: "p/log_%s" % (args[1]["id"] if isinstance(args[1], Struct) else "?")
+        it.fn_models["get_log_path"] = it.fn_models["Self::get_log_path"]
+        it.fn_models["Entry::new_snapshot_pointer"] = lambda interp, args: Struct("Entry", {"index": args[0], "term": args[1]})
+        it.fn_models["StoreUtils::entry_to_record"] = lambda interp, args: Ok(Struct("LogRecordDto", {"index": args[0]["index"], "term": args[0]["term"], "tree": "", "value": []}))
+        handle = prog.trait_method("RaftLogManager", "handle", "RaftLogManagerRequest")
+        fin = prog.trait_method("FileStore", "finalize_snapshot_installation", "RaftStorage")
+        if handle is None or fin is None:
+            raise rsparse.Unsupported("Handler<RaftLogManagerRequest> / FileStore::finalize_snapshot_installation not found")
+        mgr_box = [None]
+
+        class LogMgrAddr:
+            ty = "LogMgrAddr"
+
+        def mgr_send(interp, recv, args):
+            r = interp._invoke(handle, [mgr_box[0], args[0], "ctx"], self_ty="RaftLogManager")
+            return Ok(r)
+        it.models[("LogMgrAddr", "send")] = mgr_send
+        it.models[("FileStore", "get_membership_config")] = lambda interp, recv, args: Ok(Uninterp("membership", []))
+        idx = z3.BitVec("snapshot_index", 64)
+        top = MAX_CUT + 7
+        viol = None
+        npaths = 0
+        removed_open = 0
+        for cname, files in CATALOGUES.items():
+            def thunk(files=files):
+                del saved[:], sinks[:], created[:]
+                logs = []
+                for fid, start, count in files:
+                    rng = Struct("LogRange", {"id": fid + 3, "pre_term": 0, "start_index": start, "record_count": count if count is not None else 0,
+                                              "split_off_index": start, "is_close": count is not None, "mark_remove": False})
+                    logs.append(Struct("LogRangeWrap", {"log_range": rng, "log_actor": Some(Actor("file-%d" % (fid + 3)))}))
+                mgr = Struct("RaftLogManager", {"logs": logs, "current_log_actor": logs[-1]["log_actor"], "base_path": "p", "index_info": NONE, "last_applied_log": 0,
+                                                "index_manager": Some(IndexAddr()), "pre_ready_snapshot_pointer": NONE, "last_ready_snapshot_pointer": NONE, "is_init": True})
+                mgr_box[0] = mgr
+                old = [w["log_actor"].payload[0] for w in logs]
+                store = Struct("FileStore", {"snapshot_manager": Sink("snapshot"), "apply_manager": Sink("apply"), "log_manager": LogMgrAddr(), "index_manager": Sink("index"), "id": 1})
+                r = it._invoke(fin, [store, idx, 2, NONE, "7", "snapshot-file"], self_ty="FileStore")
+                mem = [(w["log_range"]["id"], w["log_range"]["start_index"], w["log_range"]["split_off_index"], w["log_range"]["record_count"], w["log_range"]["is_close"]) for w in mgr["logs"]]
+                last_saved = None
+                for m in saved:
+                    k, payload = (m.variant, m.payload) if isinstance(m, Enum) else ((m.name.split("::")[-1], m.args) if isinstance(m, Uninterp) else (str(m), None))
+                    if k == "SaveLogs":
+                        lst = payload[0] if isinstance(payload, (list, tuple)) and len(payload) == 1 and isinstance(payload[0], list) else payload
+                        last_saved = [(x["id"], x["start_index"], x["split_off_index"], x["record_count"], x["is_close"]) for x in lst]
+                cur = mgr["current_log_actor"]
+                cur_a = cur.payload[0] if isinstance(cur, Enum) and cur.variant == "Some" else None
+                only = mgr["logs"][0]["log_actor"].payload[0] if len(mgr["logs"]) == 1 and isinstance(mgr["logs"][0]["log_actor"], Enum) and mgr["logs"][0]["log_actor"].variant == "Some" else None
+                return (r, mem, last_saved, [[getattr(m, "variant", str(m)) for m in a.sent] for a in old], cur_a, only,
+                        [[(m.variant, m.payload) if isinstance(m, Enum) else (str(m), None) for m in a.sent] for a in created], [a.name for a in created])
+            rng_c = [z3.UGE(idx, 1), z3.ULE(idx, top)]
+            it.solver.push()
+            it.solver.add(*rng_c)
+            paths = it.explore(thunk)
+            it.solver.pop()
+            npaths += len(paths)
+            s = z3.Solver()
+            s.add(*rng_c)
+            for pc, r, exc in paths:
+                if exc is not None:
+                    viol = {"message": "panic in the snapshot installation: %s" % exc, "tags": ["panic"], "model": {"catalogue": cname}}
+                    break
+                res, mem, last_saved, old_sent, cur_a, only, new_sent, new_names = r
+                s.push()
+                s.add(*pc)
+                ob["queries"] += 1
+                if s.check() != z3.sat:
+                    s.pop()
+                    continue
+                m_ = s.model()
+                s.pop()
+
+                def val(x):
+                    return m_.eval(rseval.to_bv(x), model_completion=True).as_long() if isinstance(x, z3.ExprRef) else x
+                c = val(idx)
+                memc = [tuple(val(x) if not isinstance(x, bool) else x for x in row) for row in mem]
+                savc = [tuple(val(x) if not isinstance(x, bool) else x for x in row) for row in last_saved] if last_saved is not None else None
+                msg = tag = None
+                if not (isinstance(res, Enum) and res.variant == "Ok"):
+                    msg, tag = "finalize_snapshot_installation does not answer Ok (%r)" % (res,), "installation-fails"
+                elif not memc:
+                    msg, tag = ("delete_through = None, snapshot index %d: every file left the catalogue and no new one was started - the pointer record went to the actor of a removed file "
+                                "(the append target was not reset)" % c), "append-target-stale"
+                elif len(memc) != 1 or memc[0][1] != c or memc[0][4]:
+                    msg, tag = ("delete_through = None, snapshot index %d: the catalogue afterwards is %s (id, first index, split-off, entries, closed) - it must be one open file that starts at the "
+                                "snapshot index: an old file that stays is the append target and refuses the entry behind the snapshot" % (c, memc)), "log-not-emptied"
+                elif cur_a is None or cur_a is not only:
+                    msg, tag = "snapshot index %d: the new log file is in the catalogue but the append target is %s" % (c, "none" if cur_a is None else "the actor of a removed file (%s)" % cur_a.name), "append-target-stale"
+                elif savc != memc:
+                    msg, tag = "snapshot index %d: the catalogue saved to the index file %s differs from the one in memory %s" % (c, savc, memc), "saved-catalogue-differs"
+                elif not any(k == "Write" for sent in new_sent for k, _p in sent):
+                    msg, tag = "snapshot index %d: the snapshot pointer record is not written to the new log file" % c, "pointer-not-written"
+                elif any("Close" not in sent for sent in old_sent):
+                    msg, tag = "snapshot index %d: an old log file is removed from the catalogue but its actor is not told to close" % c, "old-actor-not-closed"
+                else:
+                    # the checks above were made on one model of the path; the index-dependent ones once more for EVERY snapshot index of the path
+                    diffs = [rseval.to_bv(mem[0][1]) != idx]
+                    if last_saved is not None and len(last_saved) == len(mem):
+                        for a_, b_ in zip(last_saved, mem):
+                            diffs += [rseval.to_bv(x_) != rseval.to_bv(y_) for x_, y_ in zip(a_[:4], b_[:4])]
+                    s.push()
+                    s.add(*pc)
+                    s.add(z3.Or(diffs))
+                    ob["queries"] += 1
+                    if s.check() == z3.sat:
+                        c = s.model().eval(idx, model_completion=True).as_long()
+                        msg, tag = "snapshot index %d: the new log file does not start at the snapshot index, or the saved catalogue differs from the one in memory" % c, "log-not-emptied"
+                    s.pop()
+                    if not msg:
+                        removed_open += 1
+                if msg:
+                    viol = {"message": "%s [catalogue before: %s]" % (msg, cname), "tags": [tag], "model": {"catalogue": cname, "files": [(f + 3, a, b) for f, a, b in files], "snapshot_index": c, "memory": memc, "saved": savc}}
+                    break
+            if viol:
+                break
+        ob["queries"] += it.queries
+        ob["solver_s"] = round(time.time() - t0, 1)
+        ob["sample"] = {"paths_explored": npaths, "installations_that_start_a_new_file": removed_open, "opaque_symbols": sorted(it.opaque_seen)[:12]}
+        if viol:
+            ob.update({"verdict": "violation", "message": viol["message"], "tags": viol["tags"], "counterexample": viol["model"]})
+        elif removed_open == 0:
+            ob.update({"verdict": "inconclusive", "message": "reachability witness never reached: an installation that ends with a new log file"})
+        else:
+            ob.update({"verdict": "discharged", "distinct": npaths})
+    except rsparse.Unsupported as e:
+        ob.update({"verdict": "inconclusive", "message": "encoder met source it cannot encode: %s" % e})
+    return ob
